@@ -6,6 +6,7 @@ CONSTANTS
   Elem = {"e", "d"}
   AsBuilt = {}
   Kinds = {"gcounter", "pncounter", "gset", "orset"}
+  CausalModes = {FALSE}
   MaxSteps = 4
   MinSteps = 2
 VIEW View
